@@ -116,7 +116,11 @@ def run(ctx):
         os.symlink(target, os.path.join(qdir, 'linked_sample.fna'))
         files[len(files)] = ('linked_sample.fna', os.path.join(qdir, 'linked_sample.fna'))
         pool.append(dict(name='linked_sample.fna', contigs=pool[6 % len(pool)]['contigs']))
-        n_special = 3
+        # a file whose name holds a form feed, a NEL and a Unicode line separator: ordinary characters inside a list-file entry
+        odd = 'odd\x0cname\x85with\u2028separators.fa'
+        files[len(files)] = (odd, W.write_fasta(os.path.join(qdir, odd), pool[2]['contigs']))
+        pool.append(dict(name=odd, contigs=pool[2]['contigs']))
+        n_special = 4
         for nm, qi in (('run1/sample.fasta', 0), ('run2/sample.fasta', 4), ('x.fa', 2), ('x.fasta', 3)):
             files[len(files)] = (nm, W.write_fasta(os.path.join(qdir, nm), pool[qi]['contigs']))
             pool.append(dict(name=nm, contigs=pool[qi]['contigs']))
